@@ -15,16 +15,18 @@ JudgeRun(e) ==
     /\ IF e.exc # "" THEN TRUE ELSE
        /\ \A s \in Rng(e.targets), c \in Rng(e.csel) :
             /\ (e.errfree /\ ~e.distrust /\ ReadBased(e)) => Check(e, "C02_TruthUpToFlip", TruthUpToFlip(e, s, c))
-            /\ (~e.distrust) =>
-                 /\ Check(e, "C03_PhasedOnlyAccessible", PhasedOnlyAccessible(e, s, c))
-                 /\ Check(e, "C03_SetsAreComponents", SetsAreComponents(e, s, c))
-                 /\ Check(e, "C03_NamedByLeftmost", NamedByLeftmost(e, s, c))
+            /\ Check(e, "C03_PhasedOnlyAccessible", PhasedOnlyAccessible(e, s, c))
+            /\ Check(e, "C03_SetsAreComponents", SetsAreComponents(e, s, c))
+            /\ Check(e, "C03_NamedByLeftmost", NamedByLeftmost(e, s, c))
        /\ (e.ped # <<>> /\ ~e.distrust) =>
             \A c \in Rng(e.csel) :
                 /\ Check(e, "C05_PaternalMaternal", PaternalMaternal(e, c))
                 /\ Check(e, "C05_TransmissionConsistent", TransmissionConsistent(e, c))
                 /\ Check(e, "C05_ConflictOrMissingUnphased", ConflictOrMissingUnphased(e, c))
                 /\ Check(e, "C05_GeneticHaplotyping", GeneticHaplotyping(e, c))
+       \* the transmission the run REPORTS to the user is the recombination list: it must agree with the transmission vector
+       \* behind the phased calls (same relations as C20, judged for C05 on pedigree runs)
+       /\ (e.ped # <<>> /\ ~e.distrust) => Check(e, "C05_ReportedTransmissionInList", RecombInsideSet(e) /\ RecombAllRuns(e))
        /\ Check(e, "C20_ReadListComplete", ReadListComplete(e))
        /\ Check(e, "C20_GtChangesExact", GtChangesExact(e))
        /\ Check(e, "C20_RecombInsideSet", RecombInsideSet(e))
